@@ -174,6 +174,30 @@ def _core_const(name):
     return -(1 << (bits - 1)) if signed else 0
 
 
+def const_value(term, depth=0):
+    """integer value of a term built from integer constants with + - * << >> (checked or not), else None"""
+    from .prov import norm
+    t = norm(term)
+    if depth > 12:
+        return None
+    if t[0] == "const":
+        v = t[1]
+        if isinstance(v, tuple) and v and v[0] == "named":
+            v = _core_const(v[1])
+        return v if isinstance(v, int) and not isinstance(v, bool) else None
+    if t[0] == "cast":
+        return const_value(t[3], depth + 1)
+    if t[0] == "field" and t[2] == "0" and norm(t[1])[0] == "bin" and norm(t[1])[1].endswith("WithOverflow"):
+        i = norm(t[1])
+        t = ("bin", i[1][:-len("WithOverflow")], i[2], i[3])
+    if t[0] == "bin" and t[1] in ("Add", "Sub", "Mul", "Shl", "Shr"):
+        a, b = const_value(t[2], depth + 1), const_value(t[3], depth + 1)
+        if a is None or b is None:
+            return None
+        return {"Add": a + b, "Sub": a - b, "Mul": a * b, "Shl": a << b if 0 <= b < 128 else None, "Shr": a >> b if 0 <= b < 128 else None}[t[1]]
+    return None
+
+
 def const_of(term):
     t = strip(term)
     if t[0] == "const":
